@@ -51,7 +51,7 @@ func init() {
 	Register(&Scenario{
 		ID:    "C03",
 		Level: "exploration",
-		Rule: "each run wires a real server node and draws a history of 3-12 handshake messages over 1-3 connections from 1-2 addresses: first-connect, phase-1 for {own, other, unknown, 0, negative} ids, phase-2 with {correct HMAC of the latest challenge, of an older challenge, under another client's key, a replayed accepted response, an unregistered id answered under a real client's key, garbage}, a sixth of them while the node's storage operations fail, control or tunnel type, interleaved with address bans, blacklisting, credential expiry (clock +31 days) and reconnects. " +
+		Rule: "each run wires a real server node and draws a history of 3-12 handshake messages over 1-3 connections from 1-2 addresses: first-connect, phase-1 for {own, other, unknown, 0, negative} ids, phase-2 with {correct HMAC of the latest challenge, of an older challenge, under another client's key, a replayed accepted response, an unregistered id answered under a real client's key, garbage}, a sixth of them while the node's storage operations fail, control or tunnel type, interleaved with address bans, blacklisting, credential expiry (clock +31 days), a node restart on the same storage and reconnects. " +
 			"After every server reply the connection's server-side authentication state and the by-client lookup are compared with a reference state machine. Non-trivial: at least one phase-2 message was sent after a challenge; distinct = distinct schedule hashes of such runs.",
 		Real: []string{"internal/app/server ServerAuthHandler", "internal/protocol/session SessionManager handshake path, client registry, BaseAdapter read loop", "internal/security SecretKeyManager/BruteForceProtector/IPManager/RateLimiter", "internal/cloud anonymous service + repos on the memory storage backend", "internal/stream StreamProcessor on both ends"},
 		Stub: []string{"transport: simnet link", "peer: scripted client computing HMAC-SHA256 with the standard library"},
@@ -75,12 +75,13 @@ func c03Run(w *simrt.World, tier string) {
 		w.Violationf("C03:harness", "node wiring failed: %v", err)
 		return
 	}
-	defer node.Close()
+	defer func() { node.Close() }()
 
 	addrs := []string{"10.1.0.1:4000", "10.1.0.2:4000"}
 	var conns []*c03conn
 	var idents []*c03ident
-	banned := map[string]bool{} // address (ip) refused by ban or blacklist
+	banned := map[string]bool{}     // address (ip) refused by ban or blacklist
+	banKind := map[string]string{} // "ban" (held in memory by the protector) or "blacklist" (stored, permanent)
 	newConn := func() *c03conn {
 		a := addrs[c.Intn(len(addrs), "addr")]
 		cc := &c03conn{addr: a, proven: map[int64]bool{}, provenControl: map[int64]bool{}, cl: node.Connect(fmt.Sprintf("c%d", len(conns)), a, simnet.LinkConfig{LawAB: simnet.LawAll, LawBA: simnet.LawAll})}
@@ -358,7 +359,40 @@ func c03Run(w *simrt.World, tier string) {
 				return
 			}
 		case kind == 8: // environment
-			switch c.Intn(5, "env") {
+			switch c.Intn(6, "env") {
+			case 5:
+				// the node restarts on the same storage: connections are gone, what is stored survives
+				// (client records, permanent blacklist entries); temporary bans live in the protector's
+				// memory and whether they survive is not this property's business
+				for _, oc := range conns {
+					if !oc.closed {
+						oc.cl.Close()
+						oc.closed = true
+						oc.authedAs = 0
+					}
+				}
+				node.Close()
+				w.Sleep(2 * time.Second)
+				var n2 *simnode.Node
+				w.Quiet(func() {
+					n2, err = simnode.New(w, st, simnode.Config{NodeID: "n1", BruteForce: bf, RateLimitIP: &security.RateLimitConfig{Rate: 100, Burst: 100, TTL: time.Hour}})
+				})
+				if err != nil {
+					w.Violationf("C03:harness", "node restart failed: %v", err)
+					return
+				}
+				node = n2
+				for ip := range banned {
+					if banKind[ip] == "ban" {
+						if b, _ := node.BF.IsBanned(ip); !b {
+							delete(banned, ip)
+							delete(banKind, ip)
+						}
+					}
+				}
+				hist = append(hist, "node restarts on the same storage")
+				w.Probe("env.restart")
+				newConn()
 			case 4:
 				// an un-migrated client record: the encrypted key is gone (only a legacy plaintext field remains)
 				if len(idents) > 0 {
@@ -376,11 +410,15 @@ func c03Run(w *simrt.World, tier string) {
 			case 0:
 				node.BF.BanIP(ipOf(cc.addr), 30*time.Minute, "sim")
 				banned[ipOf(cc.addr)] = true
+				if banKind[ipOf(cc.addr)] == "" {
+					banKind[ipOf(cc.addr)] = "ban"
+				}
 				hist = append(hist, "ban "+ipOf(cc.addr))
 				w.Probe("env.ban")
 			case 1:
 				node.IPM.AddToBlacklist(ipOf(cc.addr), 0, "sim", "harness")
 				banned[ipOf(cc.addr)] = true
+				banKind[ipOf(cc.addr)] = "blacklist"
 				hist = append(hist, "blacklist "+ipOf(cc.addr))
 				w.Probe("env.blacklist")
 			case 2:
@@ -400,9 +438,13 @@ func c03Run(w *simrt.World, tier string) {
 				// bans lapse after 30 minutes; permanent blacklist entries stay
 				hist = append(hist, "+31d")
 				for ip := range banned {
+					if banKind[ip] == "blacklist" {
+						continue // permanent: stays refused whatever the clock says
+					}
 					if ok, _ := node.IPM.IsAllowed(ip); ok {
 						if b, _ := node.BF.IsBanned(ip); !b {
 							delete(banned, ip)
+							delete(banKind, ip)
 						}
 					}
 				}
